@@ -286,4 +286,55 @@ theorem matrix_weights_order_invariant (M : List (List Fl)) (sev : List String) 
 example : (matrixWeightsToArray [[fin 1], [fin 2]] ["s"] [1/4, 3/4]).map (·.probCoords) = some [3/4, 1/4] := by
   decide +kernel
 
+/-! ## 5. The warning-scaling weight matrix (model of `_scaling_to_weight_matrix`, tied by correspondence) -/
+section scaling
+open SV.Model.Firm (modifyAt levelStep scalingToWeightMatrix)
+
+/-- `weights_from_warning_scaling`'s weight matrix (model of `_scaling_to_weight_matrix`) has one row per probability threshold,
+    one column per severity category, and non-negative finite entries — for every scaling matrix, provided the assessment
+    weights are non-negative and at least as many as the highest level (both enforced by the input checks) -/
+theorem scaling_shape_nonneg (S : List (List Nat)) (w : List Fl) (hw : ∀ x ∈ w, NonNeg x)
+    (hlen : S.flatten.foldl Nat.max 0 ≤ w.length) :
+    Good (S.length - 1) ((S.headD []).length - 1) (scalingToWeightMatrix S w) := by
+  unfold scalingToWeightMatrix
+  simp only
+  have hml : Nat.max (S.flatten.foldl Nat.max 0) w.length = w.length := Nat.max_eq_right hlen
+  rw [hml]
+  set n := S.length - 1
+  set m := (S.headD []).length - 1
+  have hrev : ∀ M, Good n m M → Good n m M.reverse := by
+    intro M h
+    exact ⟨by rw [List.length_reverse]; exact h.1, fun r hr => h.2 r (List.mem_reverse.mp hr)⟩
+  apply hrev
+  apply foldl_inv_mem (Good n m)
+  · intro wts l0 hl0 hgood
+    have hl : l0 < w.length := List.mem_range.mp hl0
+    have hP : ∀ st : List (List Fl) × Nat, Good n m st.1 → ∀ c0, Good n m (levelStep S w (l0 + 1) st c0).1 := by
+      intro st hst c0
+      unfold levelStep
+      simp only
+      have hv : NonNeg (w.getD (l0 + 1 - 1) nan) := by
+        have : w.getD (l0 + 1 - 1) nan = w[l0] := by simp [List.getD, hl]
+        rw [this]; exact hw _ (List.getElem_mem hl)
+      split_ifs <;> first
+        | exact hst
+        | exact good_modify _ _ _ _ _ _ hv hst
+    exact foldl_inv_mem (fun st : List (List Fl) × Nat => Good n m st.1) _ _ (fun st c0 _ hst => hP st hst c0) _ hgood
+  · refine ⟨by simp, fun r hr => ?_⟩
+    rw [List.mem_replicate] at hr
+    obtain ⟨_, rfl⟩ := hr
+    exact ⟨by simp, fun x hx => by rw [List.mem_replicate] at hx; exact ⟨0, hx.2, le_refl _⟩⟩
+
+example : scalingToWeightMatrix [[0, 2, 3, 3], [0, 1, 2, 3], [0, 1, 1, 2], [0, 0, 0, 0]] [fin 1, fin 2, fin 3]
+    = [[fin 2, fin 3, fin 0], [fin 0, fin 2, fin 3], [fin 1, fin 0, fin 2]] := by decide +kernel
+
+/-- notes/C12.md N1 on the model: 4 probability thresholds but a single level — the level-1 crossover in the third row
+    from the bottom is lost and the weight matrix is identically 0 -/
+theorem scaling_tall_matrix_counterexample :
+    scalingToWeightMatrix [[0, 1], [0, 1], [0, 0], [0, 0], [0, 0]] [fin 1] = [[fin 0], [fin 0], [fin 0], [fin 0]] := by
+  decide +kernel
+
+
+end scaling
+
 end SV.Props.C12
